@@ -85,7 +85,7 @@ def run():
               "formats + the ASE entry point) x {every truncation, every header byte / u16 / u32 extreme in the first 48 bytes, ~49k structure-aware faults computed by TLC from Loader.tla (boundary -1/0/+1, "
               "every numeric field 0/1/max-1/max/declared+-1; a field value followed by truncation at every boundary of the RE-COMPUTED layout; every pair of numeric fields at {0,1,max-1,max}^2 "
               "on the whole file and on the header-only file), seeded 1-3 byte corruptions, the same bytes under every other extension}, IcyDraw chunk payload truncations/corruptions/"
-              "reorderings re-wrapped as PNG, terminal token streams loaded as files under every text extension, CTerm font DCS payload classes followed by a sixel / text / resize inside a file, composed IcyDraw chunk faults, every 128-byte SAUCE tail class, random bytes with format magics; "
+              "reorderings re-wrapped as PNG, terminal token streams loaded as files under every text extension, CTerm font DCS payload classes followed by a sixel / text / resize inside a file, composed IcyDraw chunk faults, every 128-byte SAUCE tail class, random bytes with format magics, text art seeds as UTF-8 files (BOM) with one character beyond U+00FF at every one of the first 96 positions; "
               "each load in a crash-contained worker. distinct_nontrivial = number of loads (each case is a distinct (entry point, byte string) pair by construction).")
     c.assumptions = ["panics are caught per load (dev profile); aborts/hangs kill the worker and are attributed through the progress file"]
     return c.finish()
